@@ -259,6 +259,12 @@ func (p *Prelude) buildQuery(o *Obligation, wantModel bool, sizeCap int) string 
 		}
 	}
 	sort.Slice(axioms, func(i, j int) bool { return axioms[i].Name < axioms[j].Name })
+	o.LemmasUsed = nil
+	for _, a := range axioms {
+		if a.IsLemma {
+			o.LemmasUsed = append(o.LemmasUsed, a.Name)
+		}
+	}
 	allTerms := append([]*Term(nil), terms...)
 	for _, a := range axioms {
 		allTerms = append(allTerms, a.Term)
